@@ -259,9 +259,11 @@ def main():
     discharged = sum(1 for t in theorems if audit_res.get(t, (False,))[0])
     proof_broken = [t for t in theorems if not audit_res.get(t, (False,))[0]]
     if args.tier == "thorough" and ok:
-        r = subprocess.run(["lake", "env", "leanchecker", "Bcder.Props." + prop], cwd=LEAN, capture_output=True, text=True)
-        if r.returncode != 0:
-            proof_broken.append("leanchecker: " + (r.stdout + r.stderr)[-500:])
+        # the property's own module and the further modules its theorem list draws on (EXTRA_MODULES)
+        for modname in [prop] + list(getattr(mod, "EXTRA_MODULES", [])):
+            r = subprocess.run(["lake", "env", "leanchecker", "Bcder.Props." + modname], cwd=LEAN, capture_output=True, text=True)
+            if r.returncode != 0:
+                proof_broken.append("leanchecker %s: " % modname + (r.stdout + r.stderr)[-500:])
 
     if not os.path.exists(model_bin()):
         path = write_replay(prop, "model driver does not build", [], note=out[-3000:])
@@ -468,7 +470,7 @@ def write_evidence(path, prop, tier, seed, mod, audit_res, obligations, discharg
     cov = {
         "obligations": obligations,
         "discharged": discharged,
-        "checker_cmd": "cd lean && lake build Bcder.Props.%s && lake env lean Bcder/Audit/%s.lean  (thorough: + lake env leanchecker Bcder.Props.%s)" % (prop, prop, prop),
+        "checker_cmd": "cd lean && lake build Bcder.Props.%s && lake env lean Bcder/Audit/%s.lean  (thorough: + lake env leanchecker Bcder.Props.%s and its EXTRA_MODULES)" % (prop, prop, prop),
         "trusted_base": [
             "Lean 4.33.0 kernel",
             "axioms per theorem listed under `theorems` (allowed: propext, Classical.choice, Quot.sound)",
